@@ -107,6 +107,8 @@ Definition split_ok (c : graph_z * list obs_z) : bool :=
                        | Some o => obs_eqb mo o
                        | None => false end) m
     && negb (enforce_cycle_error (r_cross r))
+    (* the input the harness derived satisfies the hypothesis of the theorems *)
+    && deps_coverb (mk_graph gz)
   end.
 Definition check_split := mismatches split_ok.
 
